@@ -789,3 +789,15 @@ func (s *Sched) threadPanic(i int, r interface{}) {
 	s.res.Outcome = OPanic
 	handoff(s.done)
 }
+
+// Running returns the id of the thread that currently holds the baton (-1 if
+// no scheduler is attached).
+//
+//go:norace
+func Running() int {
+	s := cur.Load()
+	if s == nil {
+		return -1
+	}
+	return s.running
+}
